@@ -38,6 +38,7 @@ import Proofs.ResolverStaticTreeCheck
 import Proofs.ResolverStaticDisCheck
 import Proofs.ResolverStaticRun
 import Proofs.ResolverStaticRunCheck
+import Proofs.ResolverForkOrder
 import Proofs.DataflowApprox
 import Proofs.ResolverStaticEvalR
 import Proofs.ResolverStaticExample
@@ -1082,6 +1083,42 @@ theorem den_fuel_independent_checked (P : Program) (O : Oracle) (h : callGraphAc
   den_fuel_independent P O _ (callRankOk_of_B P h).1 (callRankOk_of_B P h).2 k
 
 example : callGraphAcyclicB exPlain = true ∧ callGraphAcyclicB exPipe = true := by decide
+
+/-! ### the order of the stage instances below nested map calls -/
+
+/-- The model enumerates the instances of a stage node below nested statically sized map calls
+(`dims`: the calls with their index sets, outermost first) in den's order: for each index of the
+outer call, everything below it (`denForks`: outermost call slowest). -/
+theorem instances_in_den_order (st : StructTable) (F : Nat) (ρ : Store) (n : SNode)
+    (dims : List (String × List Idx)) (forks : List (String × Idx)) (f : ForkAssign) :
+    (instsT st F ρ forks f (chainT dims n)).map (·.key) =
+      (denForks dims).map fun fk => ⟨n.path, forks ++ fk⟩ :=
+  instsT_chain_keys st F ρ n dims forks f
+
+/-- den's order against `ForkIdSet.MakeForkIds` (the cartesian product with the FIRST fork root
+fastest: `prodFF`, which is C11's model `Martian.ForkName.makeForkIds` — `makeForkIds_is_prodFF`;
+the tie of that model to the real `MakeForkIds` is C11's, on compiled nests): the
+fork roots of a node are listed outermost first, so `MakeForkIds` varies the OUTERMOST call fastest
+while den varies it slowest.  The two enumerations are the same list up to reversing the root list
+and every fork id; "instances in den's order" is therefore NOT the order of the node's fork list
+(nothing in the property depends on it: instances are compared by key). -/
+theorem den_order_vs_makeForkIds (dims : List (String × List Idx)) :
+    denForks dims
+      = (prodFF ((dims.map fun d => d.2.map fun ix => (d.1, ix)).reverse)).map List.reverse := by
+  rw [denForks_eq_prodFS, prodFS_eq_prodFF_reverse]
+
+theorem makeForkIds_is_prodFF (srcs : List Martian.ForkName.Src) :
+    Martian.ForkName.makeForkIds srcs = prodFF (srcs.map Martian.ForkName.srcParts) :=
+  makeForkIds_eq_prodFF srcs
+
+/-- two nested calls of sizes 2 and 3: den lists (0,0) (0,1) (0,2) (1,0) …, `MakeForkIds` for the
+roots [INNER, W2] lists (0,0) (1,0) (0,1) (1,1) … -/
+example :
+    denForks [("INNER", [.i 0, .i 1]), ("W2", [.i 0, .i 1, .i 2])]
+      = [[("INNER", .i 0), ("W2", .i 0)], [("INNER", .i 0), ("W2", .i 1)], [("INNER", .i 0), ("W2", .i 2)],
+         [("INNER", .i 1), ("W2", .i 0)], [("INNER", .i 1), ("W2", .i 1)], [("INNER", .i 1), ("W2", .i 2)]] ∧
+    prodFF [["I0", "I1"], ["W0", "W1", "W2"]]
+      = [["I0", "W0"], ["I1", "W0"], ["I0", "W1"], ["I1", "W1"], ["I0", "W2"], ["I1", "W2"]] := by decide
 
 /-! ### definitional unfoldings (documentation of the model, not guarantees) -/
 
